@@ -1,5 +1,28 @@
 (* C15 — The IR command built is the stored code that best matches the request *)
-Require Import AS.Base.Prelude AS.Base.Hex AS.Base.Dec AS.Model.DeviceTools AS.Model.Remotes AS.Spec.IrChoice AS.Proofs.RemotesProofs AS.Proofs.LengthProofs.
+Require Import AS.Base.Prelude AS.Base.Hex AS.Base.Dec AS.Gen.Extracted AS.Model.DeviceTools AS.Model.Remotes AS.Spec.IrChoice AS.Spec.Remote
+  AS.Proofs.RemotesProofs AS.Proofs.LengthProofs AS.Proofs.RemoteSpec.
+
+(* The Spec (Spec/Remote.v), over the list of stored waves, without loops or pops: capabilities = modes with a key starting with
+   their code (first appearance order), min / max over keys whose characters 2..4 are digits, toggle = OnOffType 1, separate swing =
+   id in the list; the code of a request = the stored wave (a later entry replaces an earlier one) of the most specific key among
+   [exact; without swing; without fan level] after clamping the temperature, 'off' for a non-toggle remote switching off, the 'on_'
+   prefix only when a toggle remote changes power state, Refused for a mode that is not supported; Silent when none of the three
+   keys (or the 'off' code) is stored. *)
+
+(* the remote built from an IR set reports exactly the capabilities present in the set *)
+Theorem C15_capabilities s :
+  let r := make_remote s in (r_supported r, r_min r, r_max r, r_toggle r, r_sep r) = spec_capabilities s.
+Proof. exact (capabilities_are_those_of_the_set s). Qed.
+Print Assumptions C15_capabilities.
+
+(* for every IR set and every request: the command and its length field are the Spec's; an unsupported mode is RuntimeError *)
+Theorem C15_build_command s on mode target fan swing current :
+  match result_of_spec (spec_build s on mode target fan swing current) with
+  | Some r' => build_command false (make_remote s) on mode target fan swing current = r'
+  | None => True
+  end.
+Proof. exact (build_command_is_the_spec s on mode target fan swing current). Qed.
+Print Assumptions C15_build_command.
 
 (* the pop loop returns the most specific stored prefix of the key list, else its first part *)
 Theorem C15_lookup_is_most_specific present key : key <> [] ->
@@ -13,5 +36,3 @@ Theorem C15_length_field c : Nat.even (length c) = true -> N.of_nat (length c / 
   breeze_command_length false c = Ok (hexlify (le16 (N.of_nat (length c / 2)))).
 Proof. exact (breeze_command_length_ok c). Qed.
 Print Assumptions C15_length_field.
-Local Close Scope N_scope.
-
